@@ -728,6 +728,23 @@ def outside_loop_client_sweep(ctx: Ctx, prop: str) -> None:
                 record(ctx, prop, run_spec(spec), "client-built-outside-loop")
 
 
+def dropped_client_sweep(ctx: Ctx, prop: str) -> None:
+    """The application keeps no reference to the APIClient once the session is established (fire-and-forget helper that connects and returns):
+    the session, and the stop callback registered for it, do not depend on the client object being referenced by anybody."""
+    S = L.default_spec
+    t0 = L.core_start()
+    idx = 0
+    for framing in ("plain", "noise"):
+        for keepalive in (20.0, 1.0):
+            for cause in ("eof", "rst", "etimedout", "garbage", "bad_pb", "peer_disconnect", "silence"):
+                idx += 1
+                if not ctx.mine(idx):
+                    continue
+                faults = [{"kind": cause, "point": {"t": t0 + 1.0}, "posclass": "client-object-unreferenced"}]
+                spec = S(framing=framing, keepalive=keepalive, program=[["connect"], ["sleep", 12.0]], drop_client_after_connect=True, faults=faults)
+                record(ctx, prop, run_spec(spec), "client-object-unreferenced")
+
+
 def reconnect_in_on_stop_sweep(ctx: Ctx, prop: str) -> None:
     """Several sessions on ONE client object, each next one opened from inside the stop callback of the previous one (at once, i.e. still
     inside the closing connection's clean-up, or after one yield).  Every session has its own callback: each must be invoked exactly once."""
